@@ -1,544 +1,18 @@
-/- GENERATED by vlib/extract.py from /repo's working tree on every run. Do not edit. -/
-namespace Nng.Generated
-
-/-- core/defs.h NNI_MAX_MAX_TTL -/
-def maxMaxTtl : Nat := 15
-
-/-- core/defs.h NNI_EXPIRE_BATCH -/
-def expireBatch : Nat := 100
-
-/-- core/message.c m_header_buf[(NNI_MAX_MAX_TTL+1)] of uint32_t -/
-def headerCap : Nat := 64
-
-/-- core/message.c nni_msg_alloc -/
-def msgBigThreshold : Nat := 1024
-
-/-- core/message.c nni_msg_alloc -/
-def msgHeadroom : Nat := 32
-
-/-- include/nng/nng.h enum nng_err -/
-def errTable : List (String × Nat) := [("eaddrinuse", 10), ("eaddrinval", 15), ("eagain", 8), ("ebadtype", 30), ("ebusy", 4), ("ecanceled", 20), ("eclosed", 7), ("econnaborted", 18), ("econnrefused", 6), ("econnreset", 19), ("econnshut", 31), ("ecrypto", 26), ("eexist", 23), ("eintr", 1), ("einval", 3), ("emsgsize", 17), ("enoent", 12), ("enofiles", 21), ("enomem", 2), ("enospc", 22), ("enotsup", 9), ("epeerauth", 27), ("eperm", 16), ("eproto", 13), ("ereadonly", 24), ("estate", 11), ("estopped", 999), ("etimedout", 5), ("eunreachable", 14), ("ewriteonly", 25)]
-
-/-- core/aio.h NNI_AIO_MAX_IOV -/
-def c01AioMaxIov : Nat := 8
-
-/-- core/defs.h NNI_MAX_STREAM_MSGSZ -/
-def c01MaxStreamMsgSz : Nat := 1152921504606846975
-
-/-- sp/transport/tcp/tcp.c txlen/rxlen -/
-def c01TcpHeadLen : Nat := 8
-
-/-- sp/transport/tcp/tcp.c tcptran_pipe_start: 00 'S' 'P' 00, then proto16, then 00 00 -/
-def c01HandshakePrefix : List Nat := [0, 83, 80, 0]
-
-/-- tcptran_pipe_start wanttxhead = sizeof(txlen) -/
-def c01HandshakeLen : Nat := 8
-
-/-- sp/transport/socket/sockfd.c txlen/rxlen -/
-def c01SfdHeadLen : Nat := 8
-
-/-- sp/transport/ipc/ipc.c tx_head/rx_head -/
-def c01IpcHeadLen : Nat := 9
-
-/-- sp/transport/ipc/ipc.c tx_head[0] / rx_head[0] check -/
-def c01IpcMsgType : Nat := 1
-
-/-- include/nng/nng.h NNG_ETIMEDOUT -/
-def aioEtimedout : Nat := 5
-
-/-- include/nng/nng.h NNG_ECANCELED -/
-def aioEcanceled : Nat := 20
-
-/-- include/nng/nng.h NNG_ESTOPPED -/
-def aioEstopped : Nat := 999
-
-/-- core/aio.c: nni_aio_finish_impl defers the dispatch to the expire thread while a_expiring (F14 repair present) -/
-def aioFixExpire : Bool := true
-
-/-- core/aio.c: nni_aio_abort records a_abort_result for an unscheduled aio (F15 repair present) -/
-def aioFixAbort : Bool := true
-
-/-- core/dialer.c nni_dialer_start_aio tests nni_aio_start's result (F6 repair present) -/
-def aioDialerHonoursStart : Bool := true
-
-/-- reqrep0/rep.c REP0_SELF -/
-def protoRep : Nat := 49
-
-/-- reqrep0/rep.c REP0_PEER -/
-def protoReq : Nat := 48
-
-/-- reqrep0/xreq.c REQ0_PEER -/
-def xreqPeer : Nat := 49
-
-/-- reqrep0/rep.c rep0_sock_init -/
-def repDefaultTtl : Nat := 8
-
-/-- reqrep0/xrep.c xrep0_sock_init -/
-def xrepDefaultTtl : Nat := 8
-
-/-- reqrep0/xreq.c xreq0_sock_init -/
-def xreqDefaultTtl : Nat := 8
-
-/-- reqrep0/rep.c rep0_sock_set_max_ttl nni_copyin_int lower bound (upper: maxMaxTtl) -/
-def repTtlMin : Nat := 1
-
-/-- reqrep0/xrep.c xrep0_pipe_init -/
-def xrepPipeSendq : Nat := 64
-
-/-- core/socket.c nni_sock_create s_uwq -/
-def sockSendqInit : Nat := 0
-
-/-- core/socket.c nni_sock_create s_urq -/
-def sockRecvqInit : Nat := 1
-
-/-- reqrep0/req.c REQ0_SELF -/
-def reqProtoSelf : Nat := 48
-
-/-- reqrep0/req.c REQ0_PEER -/
-def reqProtoPeer : Nat := 49
-
-/-- reqrep0/req.c req0_sock_init nni_id_map_init lower bound (request bit) -/
-def reqIdMin : Nat := 2147483648
-
-/-- reqrep0/req.c req0_sock_init nni_id_map_init upper bound -/
-def reqIdMax : Nat := 4294967295
-
-/-- reqrep0/req.c req0_sock_init s->retry (ms) -/
-def reqResendTimeDefault : Nat := 60000
-
-/-- reqrep0/req.c req0_sock_init s->retry_tick (ms) -/
-def reqResendTickDefault : Nat := 1000
-
-/-- core/options.c nni_copyin_ms: durations below -(this) are NNG_EINVAL -/
-def durationMinNeg : Nat := 1
-
-/-- reqrep0/req.c req0_recv_cb minimum reply length -/
-def reqIdLen : Nat := 4
-
-/-- pubsub0/sub.c NNI_PROTO_PUB_V0 -/
-def c05ProtoPub : Nat := 32
-
-/-- pubsub0/pub.c NNI_PROTO_SUB_V0 -/
-def c05ProtoSub : Nat := 33
-
-/-- pubsub0/sub.c SUB0_DEFAULT_RECV_BUF_LEN -/
-def c05SubRecvBufDefault : Nat := 128
-
-/-- pubsub0/sub.c SUB0_DEFAULT_PREFER_NEW -/
-def c05SubPreferNewDefault : Bool := true
-
-/-- pubsub0/sub.c sub0_ctx_set_recv_buf_len nni_copyin_int range -/
-def c05SubRecvBufMin : Nat := 1
-
-/-- pubsub0/sub.c sub0_ctx_set_recv_buf_len nni_copyin_int range -/
-def c05SubRecvBufMax : Nat := 8192
-
-/-- pubsub0/pub.c pub0_sock_init -/
-def c05PubSendBufDefault : Nat := 16
-
-/-- pubsub0/pub.c pub0_sock_set_sendbuf nni_copyin_int range -/
-def c05PubSendBufMin : Nat := 1
-
-/-- pubsub0/pub.c pub0_sock_set_sendbuf nni_copyin_int range -/
-def c05PubSendBufMax : Nat := 8192
-
-/-- include/nng/nng.h NNG_OPT_RECVBUF -/
-def c05OptRecvBuf : String := "recv-buffer"
-
-/-- include/nng/nng.h NNG_OPT_SENDBUF -/
-def c05OptSendBuf : String := "send-buffer"
-
-/-- include/nng/nng.h NNG_OPT_SUB_PREFNEW -/
-def c05OptPrefNew : String := "sub:prefnew"
-
-/-- core/socket.c nni_sock_create s_urq -/
-def c05SockRecvqInit : Nat := 1
-
-/-- core/socket.c sock_set_recvbuf nni_copyin_int range -/
-def c05SockRecvBufMin : Nat := 0
-
-/-- core/socket.c sock_set_recvbuf nni_copyin_int range -/
-def c05SockRecvBufMax : Nat := 8192
-
-/-- pipeline0/push.c push0_set_send_buf_len nni_copyin_int range -/
-def pushSendBufMax : Nat := 8192
-
-/-- pipeline0/push.c push0_sock_init -/
-def pushSendBufInit : Nat := 0
-
-/-- pipeline0/push.c NNI_PROTO_PULL_V0 -/
-def protoPull : Nat := 81
-
-/-- pipeline0/push.c NNI_PROTO_PUSH_V0 -/
-def protoPush : Nat := 80
-
-/-- survey0/survey.c SURVEYOR0_SELF -/
-def survProtoSelf : Nat := 98
-
-/-- survey0/survey.c SURVEYOR0_PEER -/
-def survProtoPeer : Nat := 99
-
-/-- survey0/respond.c NNI_PROTO_SURVEYOR_V0 -/
-def respProtoPeer : Nat := 98
-
-/-- survey0/respond.c NNI_PROTO_RESPONDENT_V0 -/
-def respProtoSelf : Nat := 99
-
-/-- survey0/survey.c surv0_ctx_init recv queue depth of the socket context -/
-def survRecvBufInit : Nat := 128
-
-/-- survey0/survey.c surv0_ctx_init default survey time (NNI_SECOND, core/defs.h) -/
-def survTimeInit : Nat := 1000
-
-/-- survey0/survey.c surv0_sock_init per-pipe send queue depth -/
-def survSendBufInit : Nat := 8
-
-/-- survey0/survey.c surv0_sock_init survey id range (low; the high bit) -/
-def survIdMin : Nat := 2147483648
-
-/-- survey0/survey.c surv0_sock_init survey id range (high) -/
-def survIdMax : Nat := 4294967295
-
-/-- survey0/survey.c surv0_ctx_recv: timeouts below this are clamped to the survey deadline -/
-def survRecvClampBelow : Nat := 0
-
-/-- core/options.c nni_copyin_ms: durations below minus this value are NNG_EINVAL -/
-def msOptMinNeg : Nat := 1
-
-/-- survey0/respond.c resp0_sock_init default ttl -/
-def respTtlInit : Nat := 8
-
-/-- survey0/respond.c resp0_sock_set_max_ttl lower bound (upper: NNI_MAX_MAX_TTL) -/
-def respTtlMin : Nat := 1
-
-/-- survey0/respond.c resp0_ctx_send: 1 if nni_aio_start precedes the state test (the F8 order), 0 if it is only used to park -/
-def respSendStartsFirst : Nat := 1
-
-/-- survey0/respond.c resp0_ctx_send: 1 if, after nni_aio_start and before the pending-survey test, a send is refused with NNG_ESTATE while the context's previous response is parked -/
-def respSendRefusesSecond : Nat := 1
-
-/-- survey0/respond.c resp0_ctx_send: 1 if the socket context's send pollable is cleared before nni_aio_start -/
-def respSendClearsFirst : Nat := 1
-
-/-- survey0/respond.c resp0_pipe_close: 1 if losing the last receivable pipe clears the receive pollable -/
-def respCloseClearsReadable : Nat := 1
-
-/-- survey0/respond.c: 1 if taking a survey sets the send pollable from p->busy (resp0_ctx_recv, resp0_pipe_recv_cb) and a response going out on the pipe of the socket's pending survey clears it (resp0_ctx_send) -/
-def respWritableTracksPipe : Nat := 1
-
-/-- pair0/pair.c NNI_PROTO_PAIR_V0 -/
-def pair0Proto : Nat := 16
-
-/-- pair1/pair.c PAIR1_SELF -/
-def pair1Self : Nat := 17
-
-/-- pair1/pair.c PAIR1_PEER -/
-def pair1Peer : Nat := 17
-
-/-- pair0/pair.c pair0_set_send_buf_len -/
-def pair0SendBufMax : Nat := 8192
-
-/-- pair0/pair.c pair0_set_recv_buf_len -/
-def pair0RecvBufMax : Nat := 8192
-
-/-- pair1/pair.c pair1_set_send_buf_len -/
-def pair1SendBufMax : Nat := 8192
-
-/-- pair1/pair.c pair1_set_recv_buf_len -/
-def pair1RecvBufMax : Nat := 8192
-
-/-- pair0/pair.c pair0_sock_init -/
-def pair0RecvBufInit : Nat := 0
-
-/-- pair0/pair.c pair0_sock_init -/
-def pair0SendBufInit : Nat := 0
-
-/-- pair1/pair.c pair1_sock_init_impl -/
-def pair1RecvBufInit : Nat := 0
-
-/-- pair1/pair.c pair1_sock_init_impl -/
-def pair1SendBufInit : Nat := 0
-
-/-- pair1/pair.c pair1_sock_init_impl -/
-def pair1TtlInit : Nat := 8
-
-/-- pair1/pair.c pair1_sock_set_max_ttl -/
-def pair1TtlMin : Nat := 1
-
-/-- core/defs.h NNI_MAX_MAX_TTL (upper bound in pair1_sock_set_max_ttl) -/
-def pair1TtlMax : Nat := 15
-
-/-- pair1/pair.c pair1_pipe_recv_cb: hdr > limit is malformed -/
-def pair1RxHopLimit : Nat := 255
-
-/-- pair1/pair.c pair1_sock_send: raw header value >= limit is refused -/
-def pair1TxHopLimit : Nat := 255
-
-/-- bus0/bus.c NNI_PROTO_BUS_V0 -/
-def protoBus : Nat := 112
-
-/-- bus0/bus.c bus0_sock_set_{send,recv}_buf_len nni_copyin_int range -/
-def busBufMin : Nat := 1
-
-/-- bus0/bus.c bus0_sock_set_{send,recv}_buf_len nni_copyin_int range -/
-def busBufMax : Nat := 8192
-
-/-- bus0/bus.c bus0_sock_init -/
-def busRecvBufInit : Nat := 16
-
-/-- bus0/bus.c bus0_sock_init -/
-def busSendBufInit : Nat := 16
-
-/-- vlib/extract_c09.py (canonical pipe ids; real ids are <= core/pipe.c id map max) -/
-def busCanonPidBase : Nat := 3230662656
-
-/-- harness/mocktran.c MAXP -/
-def simMaxPipes : Nat := 64
-
-/-- core/defs.h NNG_RECVMAXSZ_DEFAULT -/
-def c11RecvMaxDefault : Nat := 1073741824
-
-/-- pair0/pair.c NNI_PROTO_PAIR_V0 -/
-def c11ProtoPair0 : Nat := 16
-
-/-- pair1/pair.c PAIR1_SELF -/
-def c11ProtoPair1 : Nat := 17
-
-/-- reqrep0/req.c REQ0_SELF -/
-def c11ProtoReq : Nat := 48
-
-/-- reqrep0/rep.c REP0_SELF -/
-def c11ProtoRep : Nat := 49
-
-/-- src/sp/protocol/pubsub0/pub.c NNI_PROTO_PUB_V0 -/
-def c11ProtoPub : Nat := 32
-
-/-- src/sp/protocol/pubsub0/sub.c NNI_PROTO_SUB_V0 -/
-def c11ProtoSub : Nat := 33
-
-/-- src/sp/protocol/pipeline0/push.c NNI_PROTO_PUSH_V0 -/
-def c11ProtoPush : Nat := 80
-
-/-- src/sp/protocol/pipeline0/pull.c NNI_PROTO_PULL_V0 -/
-def c11ProtoPull : Nat := 81
-
-/-- src/sp/protocol/bus0/bus.c NNI_PROTO_BUS_V0 -/
-def c11ProtoBus : Nat := 112
-
-/-- src/sp/protocol/survey0/respond.c NNI_PROTO_SURVEYOR_V0 -/
-def c11ProtoSurveyor : Nat := 98
-
-/-- src/sp/protocol/survey0/respond.c NNI_PROTO_RESPONDENT_V0 -/
-def c11ProtoRespondent : Nat := 99
-
-/-- sp/transport/udp/udp.c sizeof(udp_sp_msg): 1+1+2+2*2 -/
-def c11UdpHdrLen : Nat := 8
-
-/-- udp.c enum udp_opcode DATA CREQ CACK DISC MESH -/
-def c11UdpOpcodes : List Nat := [0, 1, 2, 3, 4]
-
-/-- udp.c NNG_UDP_RECVMAX -/
-def c11UdpRecvMax : Nat := 65000
-
-/-- udp.c NNG_UDP_COPYMAX -/
-def c11UdpCopyMax : Nat := 1024
-
-/-- udp.c DISC_MSGSIZE -/
-def c11UdpDiscMsgsize : Nat := 4
-
-/-- udp.c DISC_PROTO -/
-def c11UdpDiscProto : Nat := 7
-
-/-- udp.c udp_rx_cb us_ver test -/
-def c11UdpVersion : Nat := 1
-
-/-- reqrep0/{xrep,rep,xreq}.c survey0/{xrespond,respond,xsurvey}.c *_sock_init nni_atomic_set(&s->ttl, N) -/
-def btTtlDefault : Nat := 8
-
-/-- *_sock_set_max_ttl nni_copyin_int lower bound (upper = NNI_MAX_MAX_TTL) -/
-def btTtlMin : Nat := 1
-
-/-- include/nng/nng.h NNG_OPT_MAXTTL -/
-def btOptMaxTtl : String := "ttl-max"
-
-/-- rep.c/respond.c ctx->btrace[NNI_MAX_MAX_TTL + 1] of uint32_t -/
-def btSavedCap : Nat := 64
-
-/-- core/pipe.c pipes NNI_ID_MAP_INITIALIZER upper bound -/
-def btPipeIdMax : Nat := 2147483647
-
-/-- req.c/survey.c nni_id_map_init lower bound -/
-def btReqIdMin : Nat := 2147483648
-
-/-- req.c/survey.c nni_id_map_init upper bound -/
-def btReqIdMax : Nat := 4294967295
-
-/-- core/socket.c nni_sock_create s_reconn = NNI_SECOND -/
-def lifeReconnMinDefault : Nat := 1000
-
-/-- core/socket.c nni_sock_create s_reconnmax -/
-def lifeReconnMaxDefault : Nat := 0
-
-/-- core/listener.c listener_accept_cb cool-down sleep -/
-def lifeAcceptCooldownMs : Nat := 100
-
-/-- core/listener.c listener_accept_cb: errors after which accept is re-armed at once -/
-def lifeAcceptRearmErrs : List Nat := [5, 18, 19, 27]
-
-/-- core/listener.c listener_accept_cb: errors after which the listener stops accepting -/
-def lifeAcceptStopErrs : List Nat := [7, 20, 999]
-
-/-- core/dialer.c dialer_connect_cb: results after which the dialer does not redial -/
-def lifeDialStopErrs : List Nat := [7, 20, 999]
-
-/-- include/nng/nng.h enum nng_pipe_ev: NONE, ADD_PRE, ADD_POST, REM_POST -/
-def lifePipeEvOrder : List Nat := [0, 1, 2, 3]
-
-/-- include/nng/nng.h NNG_ECLOSED -/
-def lifeEclosed : Nat := 7
-
-/-- include/nng/nng.h NNG_ENOENT -/
-def lifeEnoent : Nat := 12
-
-/-- include/nng/nng.h NNG_ENOTSUP -/
-def lifeEnotsup : Nat := 9
-
-/-- include/nng/nng.h NNG_ESTATE -/
-def lifeEstate : Nat := 11
-
-/-- include/nng/nng.h NNG_EINVAL -/
-def lifeEinval : Nat := 3
-
-/-- pair0/pair.c NNI_PROTO_PAIR_V0 -/
-def lifeProtoPair0 : Nat := 16
-
-/-- reqrep0/rep.c REP0_PEER -/
-def lifeProtoReq0 : Nat := 48
-
-/-- pipeline0/pull.c NNI_PROTO_PUSH_V0 -/
-def lifeProtoPush0 : Nat := 80
-
-/-- websocket/base64.c nni_base64_decode decode[256] -/
-def b64DecodeTable : List Nat := [255, 255, 255, 255, 255, 255, 255, 255, 255, 255, 255, 255, 255, 255, 255, 255, 255, 255, 255, 255, 255, 255, 255, 255, 255, 255, 255, 255, 255, 255, 255, 255, 255, 255, 255, 255, 255, 255, 255, 255, 255, 255, 255, 62, 255, 255, 255, 63, 52, 53, 54, 55, 56, 57, 58, 59, 60, 61, 255, 255, 255, 62, 255, 255, 255, 0, 1, 2, 3, 4, 5, 6, 7, 8, 9, 10, 11, 12, 13, 14, 15, 16, 17, 18, 19, 20, 21, 22, 23, 24, 25, 255, 255, 255, 255, 255, 255, 26, 27, 28, 29, 30, 31, 32, 33, 34, 35, 36, 37, 38, 39, 40, 41, 42, 43, 44, 45, 46, 47, 48, 49, 50, 51, 255, 255, 255, 255, 255, 255, 255, 255, 255, 255, 255, 255, 255, 255, 255, 255, 255, 255, 255, 255, 255, 255, 255, 255, 255, 255, 255, 255, 255, 255, 255, 255, 255, 255, 255, 255, 255, 255, 255, 255, 255, 255, 255, 255, 255, 255, 255, 255, 255, 255, 255, 255, 255, 255, 255, 255, 255, 255, 255, 255, 255, 255, 255, 255, 255, 255, 255, 255, 255, 255, 255, 255, 255, 255, 255, 255, 255, 255, 255, 255, 255, 255, 255, 255, 255, 255, 255, 255, 255, 255, 255, 255, 255, 255, 255, 255, 255, 255, 255, 255, 255, 255, 255, 255, 255, 255, 255, 255, 255, 255, 255, 255, 255, 255, 255, 255, 255, 255, 255, 255, 255, 255, 255, 255, 255, 255, 255, 255, 255, 255, 255, 255, 255]
-
-/-- websocket/base64.c nni_base64_encode encode[65] -/
-def b64EncodeTable : List Nat := [65, 66, 67, 68, 69, 70, 71, 72, 73, 74, 75, 76, 77, 78, 79, 80, 81, 82, 83, 84, 85, 86, 87, 88, 89, 90, 97, 98, 99, 100, 101, 102, 103, 104, 105, 106, 107, 108, 109, 110, 111, 112, 113, 114, 115, 116, 117, 118, 119, 120, 121, 122, 48, 49, 50, 51, 52, 53, 54, 55, 56, 57, 43, 47]
-
-/-- websocket/base64.c nni_base64_decode: decode[] indexed with an unsigned byte -/
-def b64IndexUnsigned : Bool := true
-
-/-- websocket.c enum ws_type: CONT TEXT BINARY CLOSE PING PONG -/
-def wsOpcodes : List Nat := [0, 1, 2, 8, 9, 10]
-
-/-- websocket.c enum ws_reason: NORMAL PROTOCOL_ERR UNSUPP_FORMAT TOO_BIG INTERNAL -/
-def wsCloseCodes : List Nat := [1000, 1002, 1003, 1009, 1011]
-
-/-- websocket.c ws_read_cb: the recvmax test is limited to data frames -/
-def wsRecvmaxSkipsControl : Bool := true
-
-/-- websocket.c ws_msg_init_control -/
-def wsCtlMax : Nat := 125
-
-/-- http_chunk.c enum chunk_state (count) -/
-def chunkStates : Nat := 8
-
-/-- http_conn.c HTTP_BUFSIZE -/
-def httpBufSize : Nat := 8160
-
-/-- http_conn.c struct nng_http_conn meth[] -/
-def httpMethSize : Nat := 32
-
-/-- http_conn.c struct nng_http_conn host[] -/
-def httpHostSize : Nat := 260
-
-/-- http_msg.h nni_http_entity clen[] -/
-def httpClenSize : Nat := 24
-
-/-- http_msg.h nni_http_entity ctype[] -/
-def httpCtypeSize : Nat := 128
-
-/-- http_conn.c nni_http_set_version http_versions[] -/
-def httpVersions : List (List Nat) := [([72, 84, 84, 80, 47, 49, 46, 49]), ([72, 84, 84, 80, 47, 50]), ([72, 84, 84, 80, 47, 51]), ([72, 84, 84, 80, 47, 49, 46, 48]), ([72, 84, 84, 80, 47, 48, 46, 57])]
-
-/-- include/nng/http.h NNG_HTTP_VERSION_1_1 -/
-def httpDefaultVersion : List Nat := [72, 84, 84, 80, 47, 49, 46, 49]
-
-/-- include/nng/http.h NNG_HTTP_STATUS_ OK BAD_REQUEST URI_TOO_LONG HEADERS_TOO_LARGE HTTP_VERSION_NOT_SUPP -/
-def httpStatusCodes : List Nat := [200, 400, 414, 431, 505]
-
-/-- http_conn.c http_rd_buf HTTP_RD_REQ: strcpy(conn->buf, ...) -/
-def httpDiscardMarker : List Nat := [78, 78, 71, 45, 68, 73, 83, 67, 65, 82, 68, 58, 32, 88]
-
-/-- http_conn.c http_rd_buf HTTP_RD_REQ: http_buf_pull_up() precedes the `rd_put == bufsz` test (flag) -/
-def httpReqPullUpBeforeFullTest : Bool := true
-
-/-- http_conn.c http_rd_buf HTTP_RD_REQ: parse over [rd_get, rd_put), advance, reset when drained (flag) -/
-def httpReqParseFromGet : Bool := true
-
-/-- http_conn.c http_rd_buf HTTP_RD_RES: pull-up, then EMSGSIZE when no room is left (flag) -/
-def httpResPullUpBeforeSizeTest : Bool := true
-
-/-- http_msg.c nni_http_req_parse: loop does not stop on a header error (flag) -/
-def httpReqIgnoresHeaderError : Bool := true
-
-/-- http_msg.c nni_http_res_parse: an empty line in place of the status line is a protocol error (flag) -/
-def httpResRejectsEmptyHead : Bool := true
-
-/-- http_conn.c http_prepare: the connection buffer is used for writing only when it holds no unread received data (flag) -/
-def httpPrepareSparesUnread : Bool := true
-
-/-- http_msg.c http_res_parse_line accepted status range -/
-def httpStatusRange : List Nat := [100, 999]
-
-/-- core/lmq.h lmq_buf[], core/lmq.c nni_lmq_init / nni_lmq_resize initial alloc -/
-def c18LmqInline : Nat := 2
-
-/-- core/msgqueue.c alloc = cap + 2 (init, resize) -/
-def c18MsgqSpare : Nat := 2
-
-/-- core/idhash.c ID_NEXT -/
-def c18IdProbeMul : Nat := 5
-
-/-- core/idhash.c ID_NEXT -/
-def c18IdProbeAdd : Nat := 1
-
-/-- core/idhash.c id_resize -/
-def c18IdMinCap : Nat := 8
-
-/-- core/idhash.c id_resize -/
-def c18IdMinLoadDiv : Nat := 8
-
-/-- core/idhash.c id_resize -/
-def c18IdMaxLoadNum : Nat := 2
-
-/-- core/idhash.c id_resize -/
-def c18IdMaxLoadDen : Nat := 3
-
-/-- core/idhash.c id_resize -/
-def c18IdSmallMaxLoad : Nat := 5
-
-/-- core/idhash.c nni_id_map_init -/
-def c18IdDefaultLo : Nat := 1
-
-/-- core/idhash.c nni_id_map_init -/
-def c18IdDefaultHi : Nat := 4294967295
-
-/-- core/url.c nni_schemes[]: http https tcp tcp4 tcp6 tls+tcp tls+tcp4 tls+tcp6 socket inproc ipc unix abstract ws ws4 ws6 wss wss4 wss6 udp udp4 udp6 dtls dtls4 dtls6 file mailto gopher ftp ssh git telnet irc imap imaps -/
-def urlSchemes : List (List Nat) := [([104, 116, 116, 112]), ([104, 116, 116, 112, 115]), ([116, 99, 112]), ([116, 99, 112, 52]), ([116, 99, 112, 54]), ([116, 108, 115, 43, 116, 99, 112]), ([116, 108, 115, 43, 116, 99, 112, 52]), ([116, 108, 115, 43, 116, 99, 112, 54]), ([115, 111, 99, 107, 101, 116]), ([105, 110, 112, 114, 111, 99]), ([105, 112, 99]), ([117, 110, 105, 120]), ([97, 98, 115, 116, 114, 97, 99, 116]), ([119, 115]), ([119, 115, 52]), ([119, 115, 54]), ([119, 115, 115]), ([119, 115, 115, 52]), ([119, 115, 115, 54]), ([117, 100, 112]), ([117, 100, 112, 52]), ([117, 100, 112, 54]), ([100, 116, 108, 115]), ([100, 116, 108, 115, 52]), ([100, 116, 108, 115, 54]), ([102, 105, 108, 101]), ([109, 97, 105, 108, 116, 111]), ([103, 111, 112, 104, 101, 114]), ([102, 116, 112]), ([115, 115, 104]), ([103, 105, 116]), ([116, 101, 108, 110, 101, 116]), ([105, 114, 99]), ([105, 109, 97, 112]), ([105, 109, 97, 112, 115])]
-
-/-- core/url.c nni_url_default_ports[]: git=9418 gopher=70 http=80 https=443 ssh=22 telnet=23 ws=80 ws4=80 ws6=80 wss=443 wss4=443 wss6=443 -/
-def urlDefaultPorts : List (List Nat × Nat) := [([103, 105, 116], 9418), ([103, 111, 112, 104, 101, 114], 70), ([104, 116, 116, 112], 80), ([104, 116, 116, 112, 115], 443), ([115, 115, 104], 22), ([116, 101, 108, 110, 101, 116], 23), ([119, 115], 80), ([119, 115, 52], 80), ([119, 115, 54], 80), ([119, 115, 115], 443), ([119, 115, 115, 52], 443), ([119, 115, 115, 54], 443)]
-
-/-- core/url.c host-less schemes: ipc unix abstract inproc socket -/
-def urlSpecialSchemes : List (List Nat) := [([105, 112, 99]), ([117, 110, 105, 120]), ([97, 98, 115, 116, 114, 97, 99, 116]), ([105, 110, 112, 114, 111, 99]), ([115, 111, 99, 107, 101, 116])]
-
-/-- nng.h NNG_MAXADDRLEN = sizeof(u_static) -/
-def urlInlineSize : Nat := 128
-
-/-- core/url.c hostname length check (>= is rejected) -/
-def urlHostMax : Nat := 256
-
-/-- core/url.c nng_url_sprintf portstr[] -/
-def urlPortStrSize : Nat := 8
-
-end Nng.Generated
+/- GENERATED umbrella: imports every Generated/<Group>.lean. Models import only the groups they use. -/
+import NngModel.Generated.Base
+import NngModel.Generated.C01
+import NngModel.Generated.C02
+import NngModel.Generated.C04REP
+import NngModel.Generated.C04REQ
+import NngModel.Generated.C05
+import NngModel.Generated.C06
+import NngModel.Generated.C07
+import NngModel.Generated.C08
+import NngModel.Generated.C09
+import NngModel.Generated.C11
+import NngModel.Generated.C13
+import NngModel.Generated.C14
+import NngModel.Generated.C16
+import NngModel.Generated.C16H
+import NngModel.Generated.C18
+import NngModel.Generated.C19
